@@ -2431,6 +2431,9 @@ impl CanonicalizeContext {
 			if children.iter().all(|&child| {
 				is_pseudo_script(as_element(child))
 			}) {
+				if name(&mrow) == "math" {
+					return mrow;	// nothing above 'math' to attach the scripts to
+				}
 				let parent = get_parent(mrow);  // must exist
 				let is_first_child = mrow.preceding_siblings().is_empty();
 				if  is_first_child {
